@@ -63,7 +63,7 @@ def run(rep, idx, tier):
     frep = Report("C19", tier)
     rules(frep, fx, fixture=True)
     fired = {o.rule for o in frep.by_status("violated")}
-    for r in ("C19.1", "C19.2", "C19.3", "C19.4", "C19.6", "C19.8", "C19.9", "C19.10", "C19.11", "C19.22"):
+    for r in ("C19.1", "C19.2", "C19.3", "C19.4", "C19.6", "C19.8", "C19.9", "C19.10", "C19.11", "C19.22", "C19.23"):
         if r in fired:
             rep.ok(r, "sa/fixtures/c19", "positive fixture is flagged", "the rule fires on the committed bad example", nontrivial=False)
         else:
@@ -128,6 +128,8 @@ def rules(rep, idx, fixture):
     rep.require("C19.22", 1) if not fixture else None
     from . import glue as _glue22
     _glue22.textual_memo_keys(rep, "C19.22", idx)
+    rep.require("C19.23", 1) if not fixture else None
+    _glue22.ports_not_rebound(rep, "C19.23", idx)
     if not fixture:
         from . import glue as _glue
         _glue.param_refusals(rep, "C19.12", idx)
@@ -1673,6 +1675,21 @@ def classify_recursion(f, call, idx=None):
                         if isinstance(t, ast.Compare) and len(t.ops) == 1 and isinstance(t.ops[0], (ast.LtE, ast.Lt)) and \
                                 ast.unparse(t.comparators[0]) in spell and not any(sp in ast.unparse(t.left) for sp in spell):
                             bounded = True
+        if bounded and grown is not None and f.cls is not None:
+            # a factor only makes the field grow when the field is positive: every constant ever stored in it must be >= 1
+            mult = any(isinstance(s_, ast.AugAssign) and isinstance(s_.op, (ast.Mult, ast.LShift)) and isinstance(s_.target, ast.Attribute) and
+                       s_.target.attr == grown for s_ in block[:block.index(stmt)])
+            if mult:
+                for fs_ in f.cls.methods.values():
+                    for g_ in fs_:
+                        for x in ast.walk(g_.node):
+                            if isinstance(x, ast.Assign) and any(isinstance(t_, ast.Attribute) and isinstance(t_.value, ast.Name) and
+                                                                 t_.value.id == "self" and t_.attr == grown for t_ in x.targets) and \
+                                    isinstance(x.value, ast.Constant) and isinstance(x.value.value, int) and not isinstance(x.value.value, bool) and \
+                                    x.value.value < 1:
+                                return "bad", (f"self.{grown} is multiplied before the call, but {g_.qual} stores {x.value.value} in it: "
+                                               f"{x.value.value} * 2 == {x.value.value * 2}, the field does not grow, the bound is never reached and "
+                                               "the method recurses until RecursionError")
         if bounded:
             return "ok", f"bounded variant: self.{grown} strictly grows before the call and `self.{grown} >= <bound>` raises first"
         if grown is not None and block is not None and idx is not None and f.cls is not None:
